@@ -7,7 +7,7 @@
 (*     T  n = NT, x monotone (non-decreasing or non-increasing) over 1..3, y in 0..YT  (ties)      *)
 (*     W  x = 1..n ascending or descending, n <= NW, y in 0..YW, weights in WS                     *)
 (*     L  x = 1..NL ascending / descending, y in 0..YL              (longer chains of poolings)    *)
-(*     F  family A with n = NA as f32                                                              *)
+(*     F  every x in 1..XA, every y in 0..YA, n = NF, as f32                                       *)
 (* kind "shape": inp = [what, d, x, y, q, ty]: a valid data set and one mismatch:                  *)
 (*     fit_dim  records with 2 columns ; fit_len  targets of length n + d ;                        *)
 (*     pred_dim query matrix with 2 columns ; pred_len output buffer of length #q + d ;            *)
@@ -18,7 +18,8 @@ CONSTANTS NA, XA, YA,     \* family A
           NP, YP,         \* family P
           NT, YT,         \* family T
           NW, YW, WS,     \* family W (WS = set of weight values)
-          NL, YL          \* family L
+          NL, YL,         \* family L
+          NF              \* family F
 
 VARIABLE case
 
@@ -41,7 +42,7 @@ SeedP == {Seed(x, <<>>, "f64", YP) : x \in {f \in [1..NP -> 1..NP] : Injective(f
 SeedT == {Seed(x, <<>>, "f64", YT) : x \in {f \in [1..NT -> 1..3] : Mono(f) /\ ~Injective(f)}}
 SeedW == UNION {{Seed(x, w, "f64", YW) : x \in {Asc(n), Desc(n)}, w \in [1..n -> WS]} : n \in 2..NW}
 SeedL == IF NL = 0 THEN {} ELSE {Seed(x, <<>>, "f64", YL) : x \in {Asc(NL), Desc(NL)}}
-SeedF == {Seed(x, <<>>, "f32", YA) : x \in [1..NA -> 1..XA]}
+SeedF == {Seed(x, <<>>, "f32", YA) : x \in [1..NF -> 1..XA]}
 Seeds == SeedA \cup SeedP \cup SeedT \cup SeedW \cup SeedL \cup SeedF \cup {[kind |-> "shapes"]}
 
 Shapes ==
